@@ -109,17 +109,17 @@ Theorem trace_in_syntax : forall n s sc t c sc', exec n s sc = Some (t, c, sc') 
 Proof. intro n. exact (proj1 (Proofs.trace_in_syntax n)). Qed.
 
 (* ---- I ---------------------------------------------------------------------------------------- *)
-(* compile_control_correct, partial: FUNCTION-BODY mode (needResult = false), for every program of the fragment
-     frags : no for-of statement, and no finally block whose statement list contains a DIRECT break/continue
-             (the region of the open finding C08-N7; nested ones - inside if/blocks/loops/try - are allowed),
-   at any nesting depth, for which goja's compiler resolves every break/continue target (no INil placeholder, i.e.
-   no "Could not find block"/"Illegal continue" SyntaxError):
+(* compile_control_correct, partial: FUNCTION-BODY mode (needResult = false), for every program without a for-of
+   statement (frags), at any nesting depth - every shape of try/catch/finally including finally lists with direct
+   break/continue ('breaking' blocks; finding C08-N7 repaired by f0be104), the three loop kinds, labels, if, blocks,
+   break/continue/return/throw/uncatchable at any position - for which goja's compiler resolves every break/continue
+   target (no INil placeholder, i.e. no "Could not find block"/"Illegal continue" SyntaxError):
    running [compile_prog true prog] on the VM model from [boot sc] yields exactly S's event trace, the same completion
    kind (and the same thrown value / uncatchable payload), and ends with the try stack back at the marker frame and the
    iterator and operand stacks at their entry values.  If moreover no return statement occurs inside a finally block
    (rffs: outside the region of the open finding C08-N2) the returned VALUE is S's as well.
-   Missing for the full compile_control_correct: for-of (iterStack, enumPopClose), script mode (needResult /
-   completion values: open findings C08-N4..N6 make it false there), finally lists with a direct branch (C08-N7). *)
+   Missing for the full compile_control_correct: for-of (iterStack, enumPopClose) and script mode (needResult /
+   completion values: open findings C08-N4..N6 make it false there). *)
 Theorem compile_control_correct_partial : forall n prog sc tr c sc',
   frags prog = true ->
   ~ In INil (compile_prog true prog) ->
@@ -166,9 +166,10 @@ Theorem nested_branch_loses_value_refuted :
   exists prog sc, run_S 100 false prog sc = ([], OValue (VNum 1)) /\ run_I 1000 false prog sc = ([], OValue VUndef).
 Proof. exact ProofsI.nested_branch_loses_value_refuted. Qed.
 
-Theorem branch_in_breaking_finally_refuted :
-  exists prog sc, run_S 100 true prog sc = ([EEv 1; EEv 2], OValue VUndef) /\ run_I 1000 true prog sc = ([EEv 2], OValue VUndef).
-Proof. exact ProofsI.branch_in_breaking_finally_refuted. Qed.
+Example branch_in_breaking_finally_regression :
+  run_I 1000 true w_n7 [true] = run_S 100 true w_n7 [true] /\
+  run_S 100 true w_n7 [true] = ([EEv 1; EEv 2], OValue VUndef).
+Proof. exact ProofsI.branch_in_breaking_finally_regression. Qed.
 
 (* uncatchable_runs_nothing on I (full, since fix 22853aa of finding F12): for EVERY VM state, try stack and
    payload, unwinding an uncatchable error emits no event *)
@@ -216,7 +217,6 @@ Print Assumptions pending_return_value_refuted.
 Print Assumptions finally_nested_break_value_refuted.
 Print Assumptions caught_throw_stale_value_refuted.
 Print Assumptions nested_branch_loses_value_refuted.
-Print Assumptions branch_in_breaking_finally_refuted.
 Print Assumptions uncatchable_runs_nothing.
 Print Assumptions uncatchable_step_runs_nothing.
 Print Assumptions leaveTry_leaveFinally_roundtrip.
